@@ -129,6 +129,21 @@ class AgentExecutingComponent(rpu.AgentComponent):
 
     # --------------------------------------------------------------------------
     #
+    def _canceled_on_intake(self, things):
+
+        # tasks arrive here with slots assigned by the agent scheduler - free
+        # those slots if the task is canceled before we start it
+        if not self._publishers.get(rpc.AGENT_UNSCHEDULE_PUBSUB):
+            # this executor does not use the agent scheduler (flux)
+            return
+
+        for task in things:
+            self._prof.prof('unschedule_start', uid=task['uid'])
+            self.publish(rpc.AGENT_UNSCHEDULE_PUBSUB, task)
+
+
+    # --------------------------------------------------------------------------
+    #
     def control_cb(self, topic, msg):
 
         self._log.info('command_cb [%s]: %s', topic, msg)
